@@ -24,7 +24,7 @@ ASSUMPTIONS = [
 ]
 
 ALPHA = "abcdeABCXYZ019 _-.,!?[]x="
-UNI = "\u00e9\u00e0\u00e7\u00df\u0130\u3042\u30a2\u00f1\u20ac\U0001F600\u00c9"      # accented letters, kana, a letter whose lower case is two characters, an astral character
+UNI = "\u00e9\u00e0\u00e7\u00df\u0130\u3042\u30a2\u00f1\u20ac\U0001F600\u00c9\uff21\uff42\uff01\u2026\uff71\ufb01\u00b2\u2460\u3000"      # accented letters, kana, a letter whose lower case is two characters, an astral character, full-width / half-width / ligature / superscript forms (each a character of its own)
 UNKNOWN = "qQ~#@%&*+/<>|{}"
 
 
@@ -203,11 +203,16 @@ def gen_program(rng: random.Random) -> dict:
             ents.append((bytes([rng.randrange(256)]), "'"))       # written \' inside a quoted string
         tables[f"t{i}.tbl"] = ser(ents)
     counter = [0]
+    defined_macros: list[int] = []
 
     def body(depth: int, has_table: bool) -> list:
         out = []
         for _ in range(rng.randint(1, 4)):
             c = rng.random()
+            if defined_macros and has_table and rng.random() < 0.25:
+                # a macro defined earlier is applied again here, possibly under another table: its strings are encoded with the table in force here
+                out.append(["apply", rng.choice(defined_macros)])
+                continue
             if c < 0.25 or not has_table:
                 out.append(["table", rng.choice(list(tables))])
                 has_table = True
@@ -229,7 +234,10 @@ def gen_program(rng: random.Random) -> dict:
             elif c < 0.9 and depth < 3:
                 kind = rng.choice(["block", "block", "scope", "macro", "for", "if"])
                 counter[0] += 1
-                out.append([kind, counter[0], body(depth + 1, has_table)])
+                ident = counter[0]
+                out.append([kind, ident, body(depth + 1, has_table)])
+                if kind == "macro":
+                    defined_macros.append(ident)
             else:
                 counter[0] += 1
                 out.append(["text", counter[0], rng.choice(["a", "ab", "abc", "x[0x41]y"])])
@@ -275,6 +283,8 @@ def render_program(prog: dict) -> str:
                 lines.append(f"{pad}.for k{it[1]} := 0, 2 {{")
                 walk(it[2], ind + 1)
                 lines.append(pad + "}")
+            elif it[0] == "apply":
+                lines.append(f"{pad}mm{it[1]}()")
             elif it[0] == "macro":
                 lines.append(f"{pad}.macro mm{it[1]}() {{")
                 walk(it[2], ind + 1)
@@ -313,9 +323,13 @@ def expected_bytes(prog: dict) -> bytes:
                 for _ in range(2):
                     walk(it[2], table_stack + [None])
             elif it[0] == "macro":
+                bodies[it[1]] = it[2]
                 for _ in range(2):
                     walk(it[2], table_stack + [None])
+            elif it[0] == "apply":
+                walk(bodies[it[1]], table_stack + [None])
 
+    bodies: dict = {}
     walk(prog["tree"], [None])
     return bytes(out)
 
